@@ -13,8 +13,9 @@ EXTENDS Cors, Json, TLC
 CONSTANTS Tier, MaxReq
 
 Quick == Tier = "quick"
-Domains == IF Quick THEN {<<>>, <<"http://a.com">>, <<"https://A.com", ".*">>}
-           ELSE {<<>>, <<"http://a.com">>, <<"https://A.com", ".*">>, <<"a.com">>, <<"http://a.com", "http://b.org">>}
+\* (a list of blank entries is a restriction nobody satisfies)
+Domains == IF Quick THEN {<<>>, <<"http://a.com">>, <<"https://A.com", ".*">>, <<"">>}
+           ELSE {<<>>, <<"http://a.com">>, <<"https://A.com", ".*">>, <<"a.com">>, <<"http://a.com", "http://b.org">>, <<"">>, <<"", " ">>}
 Preds == IF Quick THEN {"none", "suffix"} ELSE {"none", "suffix", "never"}
 MethodCfgs == IF Quick THEN {<<>>, <<"GET">>} ELSE {<<>>, <<"GET">>, <<"GET", "PUT">>}
 HeaderCfgs == IF Quick THEN {<<>>, <<"x-a", "X-B">>, <<"*">>} ELSE {<<>>, <<"X-A">>, <<"x-a", "X-B">>, <<"*">>}
